@@ -6,13 +6,27 @@ import (
 
 type tagIfchangedNode struct {
 	watchedExpr []IEvaluator
-	lastValues  []*Value
-	lastContent []byte
 	thenWrapper *NodeWrapper
 	elseWrapper *NodeWrapper
 }
 
+// tagIfchangedState is what one ifchanged tag remembers during one execution.
+type tagIfchangedState struct {
+	lastValues  []*Value
+	lastContent []byte
+}
+
+func (node *tagIfchangedNode) state(ctx *ExecutionContext) *tagIfchangedState {
+	st, _ := ctx.tagState[node].(*tagIfchangedState)
+	if st == nil {
+		st = &tagIfchangedState{}
+		ctx.tagState[node] = st
+	}
+	return st
+}
+
 func (node *tagIfchangedNode) Execute(ctx *ExecutionContext, writer TemplateWriter) *Error {
+	st := node.state(ctx)
 	if len(node.watchedExpr) == 0 {
 		// Check against own rendered body
 
@@ -23,10 +37,10 @@ func (node *tagIfchangedNode) Execute(ctx *ExecutionContext, writer TemplateWrit
 		}
 
 		bufBytes := buf.Bytes()
-		if !bytes.Equal(node.lastContent, bufBytes) {
+		if !bytes.Equal(st.lastContent, bufBytes) {
 			// Rendered content changed, output it
 			writer.Write(bufBytes)
-			node.lastContent = bufBytes
+			st.lastContent = bufBytes
 		}
 	} else {
 		nowValues := make([]*Value, 0, len(node.watchedExpr))
@@ -39,16 +53,16 @@ func (node *tagIfchangedNode) Execute(ctx *ExecutionContext, writer TemplateWrit
 		}
 
 		// Compare old to new values now
-		changed := len(node.lastValues) == 0
+		changed := len(st.lastValues) == 0
 
-		for idx, oldVal := range node.lastValues {
+		for idx, oldVal := range st.lastValues {
 			if !oldVal.EqualValueTo(nowValues[idx]) {
 				changed = true
 				break // we can stop here because ONE value changed
 			}
 		}
 
-		node.lastValues = nowValues
+		st.lastValues = nowValues
 
 		if changed {
 			// Render thenWrapper
